@@ -16,6 +16,8 @@ import (
 
 	"github.com/failsafe-go/failsafe-go"
 	"github.com/failsafe-go/failsafe-go/retrypolicy"
+	"github.com/failsafe-go/failsafe-go/fallback"
+	"github.com/failsafe-go/failsafe-go/timeout"
 )
 
 // ---- C15: async results ----
@@ -479,6 +481,77 @@ func TestDrive_C15(t *testing.T) {
 	}
 	w.Add(func(id int) string { return fmt.Sprintf("CaseStress %d 7 %d %d", id, rounds5, bad5) },
 		map[string]any{"scenario": "one Executor carrying a context, used for several executions (all four async entry points; retry / hedge / no policy): Cancel() on the first execution then a later async and a sync one; Cancel() on an execution already done then a later one; two in flight, the older one cancelled. Every execution that was not cancelled must return what the synchronous execution returns; bad = violations", "rounds": rounds5, "bad": bad5}, true, "executor-context-reuse")
+	// Cancel() issued from inside a retry policy's listener (user code cancelling its own execution: a watchdog in OnRetry, a
+	// budget check in OnFailure): no wait or function is in progress, the next thing entered is the policy inside
+	bad6, rounds6 := 0, 0
+	for _, entry := range asyncEntries {
+		for _, inner := range []string{"none", "hedge", "timeout", "fallback", "retry"} {
+			for _, where := range []string{"OnRetry", "OnRetryScheduled", "OnFailure"} {
+				rounds6++
+				synctest.Test(t, func(t *testing.T) {
+					arc := make(chan failsafe.ExecutionResult[int], 1)
+					fired := false
+					cancelOnce := func() {
+						if !fired {
+							fired = true
+							ar := <-arc
+							ar.Cancel()
+						}
+					}
+					rb := retrypolicy.Builder[int]().WithMaxRetries(3).WithDelay(time.Millisecond)
+					switch where {
+					case "OnRetry":
+						rb = rb.OnRetry(func(failsafe.ExecutionEvent[int]) { cancelOnce() })
+					case "OnRetryScheduled":
+						rb = rb.OnRetryScheduled(func(failsafe.ExecutionScheduledEvent[int]) { cancelOnce() })
+					default:
+						rb = rb.OnFailure(func(failsafe.ExecutionEvent[int]) { cancelOnce() })
+					}
+					pols := []failsafe.Policy[int]{rb.Build()}
+					switch inner {
+					case "hedge":
+						pols = append(pols, hedgepolicy.BuilderWithDelay[int](time.Hour).Build())
+					case "timeout":
+						pols = append(pols, timeout.With[int](time.Hour))
+					case "fallback":
+						pols = append(pols, fallback.BuilderWithResult[int](5).HandleErrors(errors.New("an error nothing returns")).Build())
+					case "retry":
+						pols = append(pols, retrypolicy.Builder[int]().WithMaxRetries(0).HandleErrors(errors.New("an error nothing returns")).Build())
+					}
+					calls := 0
+					fn := func(e failsafe.Execution[int]) (int, error) {
+						calls++
+						if calls == 1 {
+							return 0, errors.New("first attempt fails")
+						}
+						// a cooperating attempt: it returns when it is cancelled
+						select {
+						case <-e.Canceled():
+							return 0, e.Context().Err()
+						case <-time.After(time.Minute):
+							return 0, errors.New("never cancelled")
+						}
+					}
+					ex := failsafe.NewExecutor[int](pols...)
+					var ar failsafe.ExecutionResult[int]
+					switch entry {
+					case "GetWithExecutionAsync", "GetAsync":
+						ar = ex.GetWithExecutionAsync(fn)
+					default:
+						ar = ex.RunWithExecutionAsync(func(e failsafe.Execution[int]) error { _, err := fn(e); return err })
+					}
+					arc <- ar
+					if _, err := ar.Get(); !errors.Is(err, failsafe.ErrExecutionCanceled) {
+						bad6++
+					}
+					time.Sleep(time.Hour * 2)
+					synctest.Wait()
+				})
+			}
+		}
+	}
+	w.Add(func(id int) string { return fmt.Sprintf("CaseStress %d 8 %d %d", id, rounds6, bad6) },
+		map[string]any{"scenario": "Cancel() issued from inside a retry policy's own listener (OnRetry / OnRetryScheduled / OnFailure) with nothing, a hedge policy, a Timeout, a fallback or another retry policy inside it; the attempt that follows returns as soon as it is cancelled: the caller gets ErrExecutionCanceled; bad = rounds in which it did not", "rounds": rounds6, "bad": bad6}, true, "cancel-from-listener")
 	w.Stat(fmt.Sprintf("stress_trials=%d", 2*trials))
 	w.Close("(1) every scenario is run through a sync entry point and through the matching async entry point (result read with Get), then re-run asynchronously with ExecutionResult.Cancel() fired at instants taken from the run's own event times (+-1ns, midpoints); complete logs compared with the model; (2) the future protocol with 1-16 concurrent readers (Get / Result+Error / Done then Get) arriving before and around completion, for all four async entry points, successful and failing executions; (3) real-time stress of the Cancel-vs-InitializeRetry window and of the IsDone-vs-Done window; (4) one context-carrying Executor reused for several executions with Cancel() in between. Non-trivial = a retry or a reported cancellation occurred, two or more readers, or a stress batch; distinct by inputs.", nil)
 }
